@@ -21,6 +21,11 @@ CHECKS = {
             "Scaled build (maxEntrySize 64 / buffer 6400 substituted in a freshly copied qlogfile.go): every file of 0..5 (quick) / 0..7 (thorough) tail lines over 4 lengths x 5 filler prefixes x 3 gap patterns; every present and absent seek target on a reused reader object; rotated+current pairs at every split. Real build: 1.6 MB / 3.2 MB files with the tail length swept byte by byte so buffer boundaries visit every offset in a line.",
             "the scaled build differs from the shipped source only in one constant; real-constant coverage is the boundary sweep, not all files; lines+newline < maxEntrySize.",
             "DESIGN.md §4 C20", "E1-stateless"),
+    "C16": ("exploration",
+            "bounded exhaustive enumeration of (protocol x configured name x strict x client server name x DoH path x Host/TLS source) against a grammar-level reference",
+            "Every combination of 6 protocols, 3 configured server names, strict on/off, ~95 generated client server names and, for DoH, 48 paths with the name taken from TLS state or Host header; safety (ClientID only from a well-formed source, lower-cased; plain/DNSCrypt never), failure on invalid labels, strict rejection and liveness of the well-formed shapes; pre-request hook turns errors into SERVFAIL.",
+            "path.Clean and RFC 1123 label syntax are the reference; domain-part case differences and empty name under strict are accepted either way.",
+            "DESIGN.md §4 C16", "E1-stateless"),
     "C18": ("exploration",
             "bounded exhaustive enumeration of (zone table x transition-day minute x range x weekday mask) against a wall-clock reference",
             "Every distinct zone transition table on the host, every minute (and +-1ns) of the local days before/of/after every DST transition in the window, 9 day ranges x 15 weekday masks, compared with a wall-clock reference; all serialised start/end combinations of a 10x10 grid in JSON and YAML for accept/reject, round trip and agreement. Exhaustive within those bounds.",
